@@ -105,6 +105,39 @@ func lockedFrom(fn *ast.FuncDecl, base string) (token.Pos, string) {
 	return lockPos, ""
 }
 
+func callsTimeNow(e ast.Expr) bool {
+	found := false
+	ast.Inspect(e, func(n ast.Node) bool {
+		if c, ok := n.(*ast.CallExpr); ok && selString(c.Fun) == "time.Now" {
+			found = true
+		}
+		return true
+	})
+	return found
+}
+
+// freshDeadline: e calls time.Now(), or is a variable assigned in `before` (statements of the same
+// block) from an expression that does.
+func freshDeadline(e ast.Expr, before []ast.Stmt) bool {
+	if callsTimeNow(e) {
+		return true
+	}
+	id, ok := e.(*ast.Ident)
+	if !ok {
+		return false
+	}
+	for _, s := range before {
+		if as, ok := s.(*ast.AssignStmt); ok {
+			for i, l := range as.Lhs {
+				if li, ok := l.(*ast.Ident); ok && li.Name == id.Name && i < len(as.Rhs) && callsTimeNow(as.Rhs[i]) {
+					return true
+				}
+			}
+		}
+	}
+	return false
+}
+
 func inFuncLit(fn *ast.FuncDecl, pos token.Pos) bool {
 	in := false
 	ast.Inspect(fn.Body, func(n ast.Node) bool {
@@ -243,12 +276,19 @@ func lockcheckCmd(args []string) error {
 					}
 					base := selString(se.X)
 					a := access{File: fi.file, Func: name, Line: fset.Position(c.Pos()).Line, What: base + ".Write"}
+					stale := false
 					for j := 0; j < idx; j++ {
 						ast.Inspect(list[j], func(k ast.Node) bool {
 							if c2, ok := k.(*ast.CallExpr); ok && selString(c2.Fun) == base+".SetWriteDeadline" && len(c2.Args) == 1 {
 								// the argument must not be the zero time (which removes the deadline)
 								if cl, ok := c2.Args[0].(*ast.CompositeLit); !ok || selString(cl.Type) != "time.Time" {
-									a.Guarded = true
+									// and it must be computed for this write: an expression calling time.Now(),
+									// or a variable assigned from one in the same block (the loop body)
+									if freshDeadline(c2.Args[0], list[:j]) {
+										a.Guarded = true
+									} else {
+										stale = true
+									}
 								}
 							}
 							return true
@@ -270,7 +310,13 @@ func lockcheckCmd(args []string) error {
 							break
 						}
 					}
-					if !a.Guarded {
+					if stale {
+						a.Guarded = false
+					}
+					if !a.Guarded && stale {
+						a.Why = base + ".SetWriteDeadline gets a deadline that is not computed from time.Now() for this write (same block): subscribers visited after a slow one share an expired deadline"
+						facts.AllGuarded = false
+					} else if !a.Guarded {
 						a.Why = "no " + base + ".SetWriteDeadline(<non-zero>) before the write in the same block"
 						facts.AllGuarded = false
 					}
